@@ -1,4 +1,5 @@
-// unit `rmp`: slice remapping (C17, src/utils.rs) and reconstruction of the two texts from an op list (C04, C17)
+// unit `rmp`: slice remapping (C17, src/utils.rs: SliceRemapper / TextDiffRemapper over an abstract byte view of
+// DiffableStr) and reconstruction of the two token sequences / texts from an op list (C04, C17; pure spec lemmas)
 //@@ include prelude.rs
 //@@ include hook.rs
 //@@ include algutils.rs
@@ -7,9 +8,9 @@
 //@@ include iter.rs
 //@@ include xcheck.rs
 //@@ include opspec.rs
-//@@ include compact_lemmas.rs
 //@@ include remap.rs
 //@@ include reconstruct.rs
 //@@ props ^SliceRemapper::|^TextDiffRemapper::|^lemma_slice|^lemma_hyp_contig$|^lemma_cat_|^lemma_contig_mono$|^lemma_lsum_mono$ : C17
 //@@ props ^lemma_reconstruct|^lemma_expand_indices : C04 C17
+//@@ props ^lemma_script_|^lemma_xrun_ops$|^lemma_equal_ok_of_rel$|^lemma_proj_|^lemma_op_indices$|^lemma_op_values$|^lemma_side_|^lemma_psum_ : C04 C17
 fn main() {}
